@@ -438,3 +438,113 @@ Proof.
   unfold has_type, get_ns in U. destruct (find (is_attr NM_TYPE NS_XSI) attrs); [discriminate|].
   cbn. rewrite Eq, El. reflexivity.
 Qed.
+
+(* ------------------------------------------------------------------ *)
+(* an array decodes to the list of its items                           *)
+(* ------------------------------------------------------------------ *)
+
+Definition nolist (data : fields) : Prop :=
+  Forall (fun kv => match snd kv with PList _ => False | _ => True end) data.
+Definition attrkeys (data : fields) : Prop := Forall (fun kv => fst (fst kv) = true) data.
+
+Lemma oget_attrkeys : forall data nm, attrkeys data -> oget data (false, nm) = None.
+Proof.
+  induction data as [|[[b k] v] data IH]; intros nm F; [reflexivity|].
+  inversion F as [|? ? F1 F2]; subst. cbn in F1. subst b. cbn. apply IH. exact F2.
+Qed.
+
+Lemma oset_absent : forall data k v, oget data k = None -> oset data k v = data ++ [(k, v)].
+Proof.
+  induction data as [|[k' v'] data IH]; intros k v H; [reflexivity|].
+  cbn in *. destruct (key_eqb k k'); [discriminate|]. f_equal. apply IH. exact H.
+Qed.
+
+Lemma key_eqb_refl : forall k, key_eqb k k = true.
+Proof. intros [b n]. unfold key_eqb. cbn. rewrite Bool.eqb_reflx, N.eqb_refl. reflexivity. Qed.
+
+Lemma oget_last : forall data k v, oget data k = None -> oget (data ++ [(k, v)]) k = Some v.
+Proof.
+  induction data as [|[k' v'] data IH]; intros k v H; cbn in *.
+  - rewrite key_eqb_refl. reflexivity.
+  - destruct (key_eqb k k'); [discriminate|]. apply IH. exact H.
+Qed.
+
+Lemma oset_last : forall data k v v', oget data k = None -> oset (data ++ [(k, v)]) k v' = data ++ [(k, v')].
+Proof.
+  induction data as [|[k' w] data IH]; intros k v v' H; cbn in *.
+  - rewrite key_eqb_refl. reflexivity.
+  - destruct (key_eqb k k'); [discriminate|]. f_equal. apply IH. exact H.
+Qed.
+
+Lemma promote_last : forall data k l, nolist data -> promote (data ++ [(k, PList l)]) = PList l.
+Proof.
+  induction data as [|[k' v] data IH]; intros k l F; [reflexivity|].
+  inversion F as [|? ? F1 F2]; subst. cbn in *. destruct v; try contradiction; auto.
+Qed.
+
+Lemma oset_attrkeys : forall data nm v, attrkeys data -> attrkeys (oset data (true, nm) v).
+Proof.
+  unfold attrkeys. induction data as [|[k' v'] data IH]; intros nm v F; cbn.
+  - constructor; [reflexivity|constructor].
+  - inversion F as [|? ? F1 F2]; subst. destruct (key_eqb (true, nm) k').
+    + constructor; [exact F1|exact F2].
+    + constructor; [exact F1|apply IH; exact F2].
+Qed.
+
+Lemma attrs_data_attrkeys : forall l, attrkeys (attrs_data l).
+Proof.
+  intros l. unfold attrs_data. generalize (real_attrs l). intros r.
+  assert (G : forall r d, attrkeys d -> attrkeys (fold_left (fun d a => oset d (true, a_name a) (PText (a_val a))) r d)).
+  { induction r0 as [|a r0 IH]; intros d F; cbn; [exact F|]. apply IH. apply oset_attrkeys. exact F. }
+  apply G. constructor.
+Qed.
+
+(* items after the first: appended to the list under the items' name *)
+Lemma array_tail : forall step info inm data0 ks acc vs,
+  oget data0 (false, inm) = None ->
+  (forall k, In k ks -> info k = (inm, true)) ->
+  Forall2 (fun k v => step k = DOk v) ks vs ->
+  tfold_kids step info ks (data0 ++ [((false, inm), PList acc)]) = inl (data0 ++ [((false, inm), PList (acc ++ vs))]).
+Proof.
+  intros step info inm data0. induction ks as [|k ks IH]; intros acc vs H0 Hi F; inversion F as [|? v ? vs' Fk Fr]; subst.
+  - cbn. rewrite app_nil_r. reflexivity.
+  - cbn [tfold_kids]. rewrite Fk. rewrite (Hi k (or_introl eq_refl)).
+    unfold add_child. rewrite (oget_last _ _ _ H0). rewrite (oset_last _ _ _ _ H0).
+    specialize (IH (acc ++ [v]) vs' H0 (fun k' Hk' => Hi k' (or_intror Hk')) Fr).
+    rewrite <- app_assoc in IH. exact IH.
+Qed.
+
+(* An element with a one-dimensional arrayType whose real type is an array
+   (children are the wildcard), with at least one item, all items under one
+   name, none decoding to None: the result is the list of the items' values,
+   each decoded with xsi:type = the arrayType's type where it has none. *)
+Lemma array_is_list_l : forall f Sc ns nm attrs tx ks cx a d real inm vs,
+  aty1 attrs = Some a ->
+  start Sc cx (tnode (T ns nm attrs tx (map (tadd_type a) ks))) = Some (d, real) ->
+  (t_def real = DArray \/ t_def real = DAny) ->
+  ks <> [] -> (forall k, In k ks -> t_name k = inm) ->
+  Forall2 (fun k v => dect f Sc (tadd_type a k) (CChild real) = DOk v /\ v <> PNone) ks vs ->
+  dect (Datatypes.S f) Sc (T ns nm attrs tx ks) cx = DOk (PList vs).
+Proof.
+  intros f Sc ns nm attrs tx ks cx a d real inm vs Ea Est Hreal Hne Hnm F.
+  rewrite dect_S. cbv zeta. unfold aty1 in Ea.
+  destruct (get_ns NM_ATY NS_ENC attrs) as [a0|] eqn:Eg; [|discriminate].
+  destruct (one_dim a0) eqn:Eo; [|discriminate]. injection Ea as ->.
+  rewrite Est.
+  assert (Multi : forall x, match get_child Sc real x with Some dc => d_multi dc | None => false end = true).
+  { intros x. unfold get_child. destruct Hreal as [-> | ->]; reflexivity. }
+  assert (Tn : forall k, t_name (tadd_type a k) = t_name k) by (intros [? ? ? ? ?]; reflexivity).
+  destruct ks as [|k ks]; [congruence|]. inversion F as [|? v ? vs' [Fk Nk] Fr]; subst.
+  cbn [map tfold_kids]. rewrite Fk. rewrite Tn, Multi.
+  pose proof (oget_attrkeys _ (t_name k) (attrs_data_attrkeys attrs)) as H0.
+  unfold add_child. rewrite H0.
+  assert (E1 : oset (attrs_data attrs) (false, t_name k) (PList [v]) = attrs_data attrs ++ [((false, t_name k), PList [v])]).
+  { apply oset_absent. exact H0. }
+  replace (match v with PNone => oset (attrs_data attrs) (false, t_name k) (PList []) | _ => oset (attrs_data attrs) (false, t_name k) (PList [v]) end)
+    with (attrs_data attrs ++ [((false, t_name k), PList [v])]) by (destruct v; try congruence; symmetry; exact E1).
+  rewrite (array_tail _ _ (t_name k) (attrs_data attrs) (map (tadd_type a) ks) [v] vs' H0).
+  - unfold post. rewrite (promote_last _ _ _ (attrs_data_nolist attrs)). reflexivity.
+  - intros k' Hk'. apply in_map_iff in Hk' as (k0 & <- & Hk0). rewrite Tn, Multi.
+    rewrite (Hnm k0 (or_intror Hk0)), (Hnm k (or_introl eq_refl)). reflexivity.
+  - clear -Fr. induction Fr as [|x y l l' [Hx _] Fr IH]; cbn; constructor; auto.
+Qed.
